@@ -1687,7 +1687,7 @@ def create_valves(net, junctions, elements, et, inner_diameter_mm, opened=True, 
     rel_els = ['ju', 'pi']
     matcher = {'ju': ['junction', 'junctions'], 'pi': ['pipe', 'pipes']}
     for typ in rel_els:
-        if et == typ:
+        if isinstance(et, str) and et == typ:
             _check_multiple_elements(net, elements, *matcher[typ])
     if np.any(np.isin(et, rel_els)):
         mask_all = np.array([False] * len(et))
@@ -1710,7 +1710,8 @@ def create_valves(net, junctions, elements, et, inner_diameter_mm, opened=True, 
     for typ, table, joining_busses in [("pi", "pipe", ["from_junction", "to_junction"])]:
         el = el_arr[et_arr == typ]
         bs = net[table].loc[el, joining_busses].values
-        not_connected_mask = ~np.isin(b_arr[et_arr == typ], bs)
+        # every valve must sit at one of the two junctions of its own pipe
+        not_connected_mask = ~np.any(b_arr[et_arr == typ] == bs, axis=1, keepdims=True)
         if np.any(not_connected_mask):
             bus_element_pairs = zip(el_arr[et_arr == typ][:, None][not_connected_mask].tolist(),
                                      b_arr[et_arr == typ][not_connected_mask].tolist())
